@@ -960,6 +960,26 @@ impl<'a> World<'a> {
                     3 => {
                         if zinc { "@".to_string() } else { "{\"_kind\":\"\\u0000\"}".to_string() }
                     }
+                    // values whose text cannot be a C string: a NUL written as a JSON / Zinc escape ends up inside a Ref id,
+                    // Symbol, tag name, XStr type, Uri or Str of the decoded value
+                    4 => {
+                        if zinc {
+                            (*self.rng.pick::<&str>(&["\"a\\u0000b\"", "`u\\u0000`", "{a:\"x\\u0000\"}", "[\"\\u0000\",1]"])).to_string()
+                        } else {
+                            (*self.rng.pick::<&str>(&[
+                                "{\"_kind\":\"ref\",\"val\":\"a\\u0000b\"}",
+                                "{\"_kind\":\"ref\",\"val\":\"a\",\"dis\":\"d\\u0000\"}",
+                                "{\"_kind\":\"symbol\",\"val\":\"s\\u0000\"}",
+                                "{\"a\\u0000\":1,\"b\":{\"_kind\":\"marker\"}}",
+                                "{\"_kind\":\"xstr\",\"type\":\"T\\u0000\",\"val\":\"x\\u0000\"}",
+                                "{\"_kind\":\"uri\",\"val\":\"u\\u0000\"}",
+                                "\"s\\u0000\"",
+                                "[{\"_kind\":\"ref\",\"val\":\"\\u0000\"}]",
+                                "{\"_kind\":\"grid\",\"meta\":{\"ver\":\"3.0\"},\"cols\":[{\"name\":\"c\\u0000\"}],\"rows\":[{\"c\\u0000\":1}]}",
+                            ]))
+                            .to_string()
+                        }
+                    }
                     _ => {
                         // text of a value the Rust encoder produces
                         let m = crate::gen::gen_value(&mut self.rng, 2);
